@@ -107,8 +107,8 @@ func run(c *vf.Ctx) {
 			key := dagx.CanonKey(ps)
 			classes++
 			for oi, ord := range orders {
-				if n == 5 && !c.Quick() && oi%3 != classes%3 {
-					continue // n=5: every third time ordering per class (all 541 in rotation over classes)
+				if n == 5 && !c.Quick() && oi%6 != classes%6 {
+					continue // n=5: every sixth time ordering per class (all 541 in rotation over classes)
 				}
 				h := &hist{}
 				for i := range ps {
@@ -148,7 +148,7 @@ func run(c *vf.Ctx) {
 	fmt.Printf("phase exh confirm %.1fs\n", time.Since(t0).Seconds())
 
 	// ---------------- random sub-space ----------------
-	nh := c.N(10, 80)
+	nh := c.N(10, 60)
 	var tmu sync.Mutex
 	vf.Parallel(nh, workers, func(i int) {
 		r := c.Rand("hist", i)
@@ -225,7 +225,7 @@ func run(c *vf.Ctx) {
 	}
 	c.Floor("Since/Until walks", c.Counter("limit_since")+c.Counter("limit_until")+c.Counter("limit_both"), c.N(10000, 100000))
 	c.Floor("To walks", c.Counter("limit_to"), c.N(5000, 50000))
-	c.Floor("All walks", c.Counter("walk_all"), c.N(50, 400))
+	c.Floor("All walks", c.Counter("walk_all"), c.N(50, 300))
 	c.Floor("git confirmations", c.Counter("git_confirmations"), c.N(150, 800))
 	c.Floor("walks over skewed or tied times", c.Counter("walks_nonmonotone"), c.N(20000, 200000))
 	c.Assume("time limits: oracle is real git (`rev-list --max-age/--min-age`, default streaming walk), modelled as 'a commit older than --since is not shown and its parents are not followed'; model validated against git on the sample and on every reported case")
